@@ -189,7 +189,11 @@ func accessors(r *sim.R) {
 			case 9:
 				h.SetString(nm, ix, "w", opts...)
 			case 10:
-				h.SetChild(nm, ix, ucfg.New(), opts...)
+				if r.T.Chance(1, 4, "nil-child") {
+					h.SetChild(nm, ix, nil, opts...)
+				} else {
+					h.SetChild(nm, ix, ucfg.New(), opts...)
+				}
 			case 11:
 				h.CountField(nm, opts...)
 			case 12:
@@ -392,7 +396,9 @@ func documents(r *sim.R) {
 // Run executes one hostile run.
 func Run(r *sim.R) {
 	r.Order = r.T.Weighted([]int{3, 1, 1}, "order-policy")
-	switch r.T.Weighted([]int{4, 3, 2, 3, 3, 2, 3, 3}, "family") {
+	switch r.T.Weighted([]int{4, 3, 2, 3, 3, 2, 3, 3, 4}, "family") {
+	case 8:
+		typedTargets(r)
 	case 7:
 		// well-formed reference graphs of every shape (cycles through dictionaries and lists,
 		// absorbed cycles, drifting environments, failing resolvers) read through every entry point
